@@ -445,6 +445,9 @@ func c10r3(c *core.Ctx) {
 				fanouts = append(fanouts, i)
 			}
 		}
+		if dispatchesCallbacksOf(cc, f.Params[0]) {
+			fanouts = append(fanouts, i)
+		}
 		// the dispatch loop written out: a dynamic call of an element of one of the two slices
 		if !cc.IsInvoke() && cc.StaticCallee() == nil {
 			if core.AnySource(cc.Value, func(s ssa.Value) bool {
